@@ -71,24 +71,59 @@ def run_write(case):
     return obs(t)
 
 
-def build(spec):
+def run_gridseq(case):
+    """draw / write calls in sequence on one widget object; the source widgets are kept (and may be drawn again): what they show afterwards is reported too"""
+    t = _mk_widget(case["target"]); out = []; srcs = {}
+    for i, st in enumerate(case["steps"]):
+        if st["op"] == "draw":
+            src = srcs[st["src_ref"]] if st.get("src_ref") is not None else _mk_widget({"buf": st["src"]})
+            srcs[i] = src
+            t.draw(src, row=st.get("row"), col=st.get("col"), block=st["block"])
+        else:
+            t.write(st["text"], row=st.get("row"), col=st.get("col"), width=st.get("width"), block=st["block"])
+        out.append(obs(t))
+    return {"steps": out, "srcs_after": {str(i): w.get_lines() for i, w in srcs.items()}}
+
+
+def build(spec, shared=None):
     k = spec[0]
     if k == "text": return RW.TextWidget(spec[1])
     if k == "sep": return RW.SeparatorWidget(spec[1])
     if k == "center": return RW.CenterWidget(build(spec[1]))
     if k == "checkbox": return RW.CheckboxWidget(key=spec[1], title=spec[2], text=spec[3], completed=spec[4])
     if k == "window":
-        c = RC.WindowContainer(spec[1])
-        for x in spec[2]: c.add(build(x))
+        c = RC.WindowContainer(spec[1]); built = []
+        for x in spec[2]:
+            # ["ref", j]: the very same widget object as sibling j (a leaf), added a second time
+            built.append(built[x[1]] if x[0] == "ref" else build(x)); c.add(built[-1])
         return c
     if k == "list":
         _, cm, cols, cw, sp, kp, items = spec
         c = (RC.ListColumnContainer if cm else RC.ListRowContainer)(cols, columns_width=cw, spacing=sp, numbering=kp is not None)
         if kp is not None:
             c.key_pattern = RC.KeyPattern(pattern=kp[0] + "{:d}" + kp[1], offset=kp[2])
-        for x in items: c.add(build(x))
+        built = []
+        for x in items:
+            built.append(built[x[1]] if x[0] == "ref" else build(x)); c.add(built[-1])
         return c
     raise AssertionError(spec)
+
+
+def nodes_of(w, seen_twice):
+    """lines of every descendant in preorder; None for an object that occurs more than once in the tree (it shows its last rendering only)"""
+    kids = [it.widget for it in w._items] if isinstance(w, RC.Container) else [w._w] if isinstance(w, RW.CenterWidget) else []
+    out = []
+    for k in kids:
+        out.append(None if id(k) in seen_twice else k.get_lines()); out += nodes_of(k, seen_twice)
+    return out
+
+
+def shared_ids(w, seen=None, twice=None):
+    seen = set() if seen is None else seen; twice = set() if twice is None else twice
+    kids = [it.widget for it in w._items] if isinstance(w, RC.Container) else [w._w] if isinstance(w, RW.CenterWidget) else []
+    for k in kids:
+        (twice if id(k) in seen else seen).add(id(k)); shared_ids(k, seen, twice)
+    return twice
 
 
 def child_at(w, path):
@@ -116,7 +151,7 @@ def run_tree(case):
             continue
         if op == "render":
             try:
-                w.render(a); out.append(obs(w))
+                w.render(a); o_ = obs(w); o_["nodes"] = nodes_of(w, shared_ids(w)); out.append(o_)
             except Exception as e:
                 out.append({"err": err_name(e)})
         elif op == "add":
@@ -139,6 +174,55 @@ def run_key(case):
     assert r is True or r is False
     assert len(fired) <= 1
     return {"handled": r, "fired": fired[0] if fired else None, "labels": labels}
+
+
+def run_keytree(case):
+    """a list container built with callbacks on its items (some raise at some of their invocations), rendered once, then keys typed at it one after the other"""
+    spec = case["tree"]; _, cm, cols, cw, sp, kp, items = spec
+    c = (RC.ListColumnContainer if cm else RC.ListRowContainer)(cols, columns_width=cw, spacing=sp, numbering=kp is not None)
+    if kp is not None: c.key_pattern = RC.KeyPattern(pattern=kp[0] + "{:d}" + kp[1], offset=kp[2])
+    fired = []; calls = {}
+    def mk(i):
+        def cb(data):
+            calls[i] = calls.get(i, 0) + 1; fired.append(data)
+            if calls[i] in (case.get("raise_on") or {}).get(str(i), []): raise RuntimeError("callback of item %d fails" % i)
+        return cb
+    for i, x in enumerate(items): c.add(build(x), mk(i) if case["cbs"][i] else None, i)
+    try:
+        c.render(case["w"]); r = obs(c); r["nodes"] = nodes_of(c, shared_ids(c))
+    except Exception as e:
+        r = {"err": err_name(e)}
+    out = []
+    for key in case["keys"]:
+        del fired[:]
+        try:
+            h = c.process_user_input(key); raised = False
+        except RuntimeError:
+            h = None; raised = True
+        out.append({"handled": h, "fired": fired[0] if fired else None, "raised": raised, "n_fired": len(fired)})
+    return {"render": r, "keys": out}
+
+
+def run_render_race(case):
+    """two threads render their own TextWidget again and again, each at its own width"""
+    import threading
+    alone = []
+    for t, w in zip(case["texts"], case["widths"]):
+        x = RW.TextWidget(t); x.render(w); alone.append(x.get_lines())
+    bad = []; old = sys.getswitchinterval(); sys.setswitchinterval(1e-6)
+    def work(k):
+        x = RW.TextWidget(case["texts"][k])
+        for _ in range(case["rounds"]):
+            try: x.render(case["widths"][k]); got = x.get_lines()
+            except Exception as e: got = ["<%s>" % type(e).__name__]
+            if got != alone[k]: bad.append({"width": case["widths"][k], "got": got, "alone": alone[k]})
+    try:
+        ths = [threading.Thread(target=work, args=(k,)) for k in range(2)]
+        for t in ths: t.start()
+        for t in ths: t.join()
+    finally:
+        sys.setswitchinterval(old)
+    return {"mismatches": len(bad), "first": bad[0] if bad else None}
 
 
 def run_prompt(case):
@@ -184,7 +268,7 @@ def run_paging(case):
 
 
 RUN = {"textseq": run_textseq, "text": run_text, "wrap": run_wrap, "int": run_int, "draw": run_draw, "write": run_write,
-       "tree": run_tree, "key": run_key, "prompt": run_prompt, "paging": run_paging}
+       "tree": run_tree, "gridseq": run_gridseq, "keytree": run_keytree, "render_race": run_render_race, "key": run_key, "prompt": run_prompt, "paging": run_paging}
 
 
 def run_impl(case):
